@@ -58,6 +58,8 @@ def pmap(func: Callable[[Any], Any], chunks: Sequence[Any], procs: int = NCPU) -
     if procs <= 1 or len(chunks) == 1:
         _init_worker()
         return [func(c) for c in chunks]
+    from . import tlc as _tlc
+    _tlc.scratch()          # created in the parent: the forked workers inherit it, the parent removes it at exit
     ctx = mp.get_context('fork')
     with ctx.Pool(min(procs, len(chunks)), initializer=_init_worker) as pool:
         return pool.map(func, chunks, chunksize=1)
